@@ -118,6 +118,11 @@ fn judge(exp: &Expect, got: &Got, line: u64) -> Option<&'static str> {
 struct Consumer {
     extra_after_none: u8,
     stop_at_first_err: bool,
+    /// other parts of the Iterator interface (strict configuration without corruption only):
+    /// at item index `.0` call `nth(.1)` instead of `next()`
+    nth_at: Option<(usize, usize)>,
+    /// after this many items, finish with `count()` and compare with the rows that remain
+    count_after: Option<usize>,
 }
 
 #[derive(Clone, Debug)]
@@ -172,6 +177,8 @@ struct Outcome {
     asked_after_none: u64,
     line_longer_than_buffer: bool,
     longest_line: usize,
+    used_nth: bool,
+    used_count: bool,
     /// sequence of (kind, bytes consumed at that point): the observable history
     history_hash: u64,
 }
@@ -210,7 +217,7 @@ fn run_case(case: &Case, scratch: Option<&Path>) -> Outcome {
     let mut out = Outcome {
         violation: None, trace: vec![], stats: ReadStats::default(), items: 0, delivered_ok: 0, delivered_err: 0,
         hard_fired_at_call: None, rows_after_hard_error: 0, of_which_not_in_file: 0, max_error_line: 0, asked_after_none: 0,
-        line_longer_than_buffer: data.split(|b| *b == b'\n').any(|l| l.len() > 8192), longest_line: data.split(|b| *b == b'\n').map(|l| l.len() + 1).max().unwrap_or(0), history_hash: 0,
+        line_longer_than_buffer: data.split(|b| *b == b'\n').any(|l| l.len() > 8192), longest_line: data.split(|b| *b == b'\n').map(|l| l.len() + 1).max().unwrap_or(0), used_nth: false, used_count: false, history_hash: 0,
     };
     let max_calls = expected.len() + 8;
     let mut hh = hash_bytes(&data);
@@ -229,16 +236,45 @@ fn run_case(case: &Case, scratch: Option<&Path>) -> Outcome {
     } else {
         via_sim = Some(CsvLineParser::from_reader(rdr));
     }
-    let mut next = |call: usize| -> Got {
+    let plain = case.config == "strict" && !case.file.has_corruption();
+    let nth_at = if plain { case.consumer.nth_at } else { None };
+    let count_after = if plain { case.consumer.count_after } else { None };
+    let mut size_hint_bad: Option<(usize, Option<usize>)> = None;
+    let mut counted: Option<Result<usize, ()>> = None;
+    let mut next_op = |call: usize, skip: usize, finish_with_count: bool, remaining: usize| -> Got {
         shared.borrow_mut().cur_call = call;
-        let r = std::panic::catch_unwind(std::panic::AssertUnwindSafe(|| match (&mut via_sim, &mut via_file) {
-            (Some(p), _) => p.next(),
-            (_, Some(p)) => p.next(),
-            _ => unreachable!(),
+        let r = std::panic::catch_unwind(std::panic::AssertUnwindSafe(|| {
+            if finish_with_count {
+                let n = match (via_sim.take(), via_file.take()) {
+                    (Some(p), _) => p.count(),
+                    (_, Some(p)) => p.count(),
+                    _ => unreachable!(),
+                };
+                counted = Some(Ok(n));
+                return None;
+            }
+            match (&mut via_sim, &mut via_file) {
+                (Some(p), _) => {
+                    let (lo, hi) = p.size_hint();
+                    if plain && (lo > remaining || hi.map(|h| h < remaining).unwrap_or(false)) {
+                        size_hint_bad = Some((lo, hi));
+                    }
+                    if skip > 0 { p.nth(skip) } else { p.next() }
+                }
+                (_, Some(p)) => {
+                    if skip > 0 { p.nth(skip) } else { p.next() }
+                }
+                _ => unreachable!(),
+            }
         }));
         match r {
             Ok(x) => classify(x),
-            Err(_) => Got::Panic,
+            Err(_) => {
+                if finish_with_count {
+                    counted = Some(Err(()));
+                }
+                Got::Panic
+            }
         }
     };
 
@@ -253,8 +289,20 @@ fn run_case(case: &Case, scratch: Option<&Path>) -> Outcome {
             None => ("beyond_last_row".to_string(), String::new()),
         }
     };
+    let mut counted_expect: Option<usize> = None;
     while i < max_calls {
-        let got = next(i);
+        if count_after == Some(out.items) && ei <= expected.len() {
+            // finish through Iterator::count(): every remaining line yields exactly one item
+            counted_expect = Some(expected.len() - ei);
+            let _ = next_op(i, 0, true, expected.len() - ei);
+            break;
+        }
+        let skip = match nth_at {
+            Some((at, j)) if at == ei && ei + j <= expected.len() => j,
+            _ => 0,
+        };
+        let got = next_op(i, skip, false, expected.len().saturating_sub(ei));
+        ei += skip; // the skipped items are not observed; the one returned must be the (ei+skip)-th
         let hard_at = shared.borrow().hard_fired_at_call;
         hh = hash_combine(hh, hash_bytes(format!("{:?}", got).as_bytes()));
         let after_hard = hard_at.map(|h| i >= h).unwrap_or(false);
@@ -362,7 +410,7 @@ fn run_case(case: &Case, scratch: Option<&Path>) -> Outcome {
     if ended && out.violation.is_none() {
         for k in 0..case.consumer.extra_after_none as usize {
             out.asked_after_none += 1;
-            let got = next(i + 1 + k);
+            let got = next_op(i + 1 + k, 0, false, 0);
             if shared.borrow().hard_fired_at_call.is_some() {
                 break;
             }
@@ -372,7 +420,20 @@ fn run_case(case: &Case, scratch: Option<&Path>) -> Outcome {
             }
         }
     }
-    drop(next);
+    drop(next_op);
+    if out.violation.is_none() {
+        if let (Some(want), Some(got)) = (counted_expect, counted) {
+            out.used_count = true;
+            if got != Ok(want) {
+                out.violation = Some(Violation { kind: if got.is_err() { "panic".into() } else { "count_disagrees_with_rows".into() }, index: i, line: 0,
+                    expected: json!({"Iterator::count() over the remaining lines": want}), got: json!(format!("{:?}", got)), row_class: "iterator_interface".into(), row_text: String::new() });
+            }
+        }
+        if let Some(h) = size_hint_bad {
+            out.violation = Some(Violation { kind: "size_hint_excludes_the_truth".into(), index: i, line: 0, expected: json!("lower <= remaining rows <= upper"), got: json!(format!("{:?}", h)), row_class: "iterator_interface".into(), row_text: String::new() });
+        }
+    }
+    out.used_nth = nth_at.is_some();
     drop(via_sim);
     drop(via_file);
     if let Some(p) = tmp_path {
@@ -467,7 +528,12 @@ fn plan_case(seed: u64, idx: u64, tier: &str) -> Case {
         config: config.to_string(),
         torn_at,
         reader: ReaderSpec::Gen { seed: rng.next_u64(), script: GenScript { mode, eintr_per_1000: eintr, hard } },
-        consumer: Consumer { extra_after_none: if rng.chance(1, 3) { 1 + rng.below(3) as u8 } else { 0 }, stop_at_first_err: rng.chance(1, 10) },
+        consumer: Consumer {
+            extra_after_none: if rng.chance(1, 3) { 1 + rng.below(3) as u8 } else { 0 },
+            stop_at_first_err: rng.chance(1, 10),
+            nth_at: if rng.chance(1, 8) { Some((rng.usize_below(8), 1 + rng.usize_below(3))) } else { None },
+            count_after: if rng.chance(1, 8) { Some(rng.usize_below(12)) } else { None },
+        },
         via_real_file,
     }
 }
@@ -479,7 +545,8 @@ fn case_to_json(c: &Case, trace: &[Dec]) -> Value {
         "config": c.config,
         "torn_at": c.torn_at,
         "reader_trace": trace_to_json(trace),
-        "consumer": {"extra_after_none": c.consumer.extra_after_none, "stop_at_first_err": c.consumer.stop_at_first_err},
+        "consumer": {"extra_after_none": c.consumer.extra_after_none, "stop_at_first_err": c.consumer.stop_at_first_err,
+                     "nth_at": c.consumer.nth_at.map(|(a, j)| json!([a, j])), "count_after": c.consumer.count_after},
         "via_real_file": c.via_real_file,
     })
 }
@@ -493,6 +560,8 @@ fn case_from_json(v: &Value) -> Option<Case> {
         consumer: Consumer {
             extra_after_none: v.pointer("/consumer/extra_after_none").and_then(|x| x.as_u64()).unwrap_or(0) as u8,
             stop_at_first_err: v.pointer("/consumer/stop_at_first_err").and_then(|x| x.as_bool()).unwrap_or(false),
+            nth_at: v.pointer("/consumer/nth_at").and_then(|x| x.as_array()).and_then(|a| Some((a.first()?.as_u64()? as usize, a.get(1)?.as_u64()? as usize))),
+            count_after: v.pointer("/consumer/count_after").and_then(|x| x.as_u64()).map(|x| x as usize),
         },
         via_real_file: v.get("via_real_file").and_then(|x| x.as_bool()).unwrap_or(false),
     })
@@ -587,6 +656,12 @@ fn worker(seed: u64, from: u64, to: u64, tier: &str, scratch: &Path) -> (Value, 
             bump("probe_longest_line_within_1_of_power_of_two", 1);
         }
         bump("probe_item_after_none_requested", o.asked_after_none);
+        if o.used_nth {
+            bump("probe_consumer_used_nth", 1);
+        }
+        if o.used_count {
+            bump("probe_consumer_finished_with_count", 1);
+        }
         distinct.insert(o.history_hash);
         if o.stats.split_inside_line > 0 || o.stats.eintr > 0 || o.stats.hard_errors > 0 || case.torn_at.is_some() || ncorrupt > 0 {
             distinct_nontrivial.insert(o.history_hash);
@@ -683,9 +758,9 @@ fn shrink_case(case: &Case) -> Vec<Case> {
         out.push(c);
     }
     // simpler consumer / no real file / no tearing
-    if case.consumer.extra_after_none > 0 || case.consumer.stop_at_first_err {
+    if case.consumer.extra_after_none > 0 || case.consumer.stop_at_first_err || case.consumer.nth_at.is_some() || case.consumer.count_after.is_some() {
         let mut c = case.clone();
-        c.consumer = Consumer { extra_after_none: 0, stop_at_first_err: false };
+        c.consumer = Consumer { extra_after_none: 0, stop_at_first_err: false, nth_at: None, count_after: None };
         out.push(c);
     }
     // shorter descriptions, ASCII instead of multi-byte
